@@ -225,13 +225,16 @@ def gen_script(r, fn, params):
 
 
 # ---------------------------------------------------------------------------
-def call_generator(xgi, fn, params, seed_kw):
+def call_generator(xgi, fn, params, seed_kw, graph=None):
     import networkx as nx
     kw = dict(params)
     if "G" in kw:
-        G = nx.Graph()
-        G.add_nodes_from(kw["G"]["nodes"])
-        G.add_edges_from(kw["G"]["edges"])
+        if graph is not None:
+            G = graph  # the caller's own graph object, used again
+        else:
+            G = nx.Graph()
+            G.add_nodes_from(kw["G"]["nodes"])
+            G.add_edges_from(kw["G"]["edges"])
         kw["G"] = G
     if fn == "uniform_HSBM":
         kw["p"] = np.array(kw["p"])
@@ -260,17 +263,33 @@ def do_generate(sim, rec):
             except Exception:
                 pass
         sim.world.stats["generate_again_after_mutating_result"] += 1
-        _generate_once(sim, rec, " [second call, after the first result was modified]")
+        params = dec(rec["params"])
+        graph = None
+        if "G" in params and _LASTKW.get("G") is not None:
+            # the caller's own graph object again, rewired in place (same numbers of nodes and edges)
+            graph = _LASTKW["G"]
+            es = list(graph.edges)
+            non = [(a, b) for i, a in enumerate(graph.nodes) for b in list(graph.nodes)[i + 1:] if not graph.has_edge(a, b)]
+            if es and non:
+                r = random.Random(rec["seed"])
+                graph.remove_edge(*r.choice(es))
+                graph.add_edge(*r.choice(non))
+            params["G"] = {"nodes": list(graph.nodes), "edges": [list(e) for e in graph.edges]}
+        _generate_once(sim, rec, " [second call, after the first result was modified]", params, graph)
+    _LASTKW.clear()
     return None
 
 
-def _generate_once(sim, rec, tag):
+_LASTKW = {}
+
+
+def _generate_once(sim, rec, tag, params=None, graph=None):
     w = sim.world
     xgi = sim.xgi
     fn = rec["fn"]
     if not hasattr(xgi, fn):
         return None
-    params = dec(rec["params"])
+    params = dec(rec["params"]) if params is None else params
     mode = rec["mode"]
     w.stats["op:generate." + fn] += 1
     w.stats["rng_mode:" + mode] += 1
@@ -288,7 +307,9 @@ def _generate_once(sim, rec, tag):
                     out, kw = call_generator(xgi, fn, params, seed_kw)
                 w.stats["scripted_draws_consumed"] += sc.py_used + sc.np_used
             else:
-                out, kw = call_generator(xgi, fn, params, seed_kw)
+                out, kw = call_generator(xgi, fn, params, seed_kw, graph)
+            _LASTKW.clear()
+            _LASTKW.update({"G": (kw or {}).get("G")})
         except Exception as ex:  # noqa
             exc = ex
     w.logev("generate", rec["uid"], fn, canon(params), mode, "ok" if exc is None else type(exc).__name__)
